@@ -25,7 +25,8 @@
        DSet      `self._shutdown.set()`
        wait=False: DAcquire `with self._lock, ThreadPoolExecutor()`; one cancel task per
                  registered future (DCancel pending, any order); leaving the `with`
-       wait=True:  DSnap `list(self._futures)` (no lock); DJoin: `future.result()` each, inside
+       wait=True:  DAcquire `with self._lock:` (in _join); DSnap `futures = list(self._futures)`;
+                 DUnlock leaving the `with`; DJoin: `future.result()` each, inside
                  `contextlib.suppress(Exception)`: result() blocks until the future is finished
                  and re-raises its `_exception` (TimeoutExpired, a Popen error), which is
                  suppressed -- every future of the snapshot is waited for, shutdown() never
@@ -42,7 +43,7 @@ Inductive spc_t := SCheck | SAcquire | SRecheck | SAppend | SStart | SRelease | 
                  | SGot (v : verdict) | SUnlock | SRejected.
 Inductive wpc_t := WNew | WStarted | WComm | WFinally | WSetRes | WDone.
 Inductive dpc_t := DSet | DAcquire | DCancel (pending : list nat) | DSnap
-                 | DJoin (pending : list nat) | DDone.
+                 | DUnlock (pending : list nat) | DJoin (pending : list nat) | DDone.
 Inductive owner := OSub (j : nat) | OSd (k : nat).
 
 Record job := mkJob {
@@ -217,12 +218,13 @@ Definition step (st : state) (l : label) : option state :=
         | _ => None end)
   | LSdSet k =>
       on_sd st k (fun s => match dpc s with
-        | DSet => Some (mkSd (swait s) (if swait s then DSnap else DAcquire), with_flag st true)
+        | DSet => Some (mkSd (swait s) DAcquire, with_flag st true)
         | _ => None end)
   | LSdAcquire k =>
       if is_free (lock st) then
         on_sd st k (fun s => match dpc s with
-          | DAcquire => Some (mkSd (swait s) (DCancel (reg st)), with_lock st (Some (OSd k)))
+          | DAcquire => Some (mkSd (swait s) (if swait s then DSnap else DCancel (reg st)),
+                              with_lock st (Some (OSd k)))
           | _ => None end)
       else None
   | LSdCancel k j =>
@@ -239,7 +241,11 @@ Definition step (st : state) (l : label) : option state :=
         | _ => None end)
   | LSdSnap k =>
       on_sd st k (fun s => match dpc s with
-        | DSnap => Some (mkSd (swait s) (DJoin (reg st)), st)
+        | DSnap => Some (mkSd (swait s) (DUnlock (reg st)), st)
+        | _ => None end)
+  | LSdRelease k =>
+      on_sd st k (fun s => match dpc s with
+        | DUnlock pend => Some (mkSd (swait s) (DJoin pend), with_lock st None)
         | _ => None end)
   | LSdJoin k =>
       on_sd st k (fun s => match dpc s with
@@ -270,7 +276,7 @@ Definition all_labels (st : state) : list label :=
      LCommRet j AUnsat; LCommRet j ASat; LCommRet j AUnknown; LCommRet j AGarbage;
      LCommTimeout j; LCommExc j; LFinally j; LSetResult j]) js
   ++ flat_map (fun k =>
-    [LSdSet k; LSdAcquire k; LSdSnap k; LSdJoin k; LSdReturn k]
+    [LSdSet k; LSdAcquire k; LSdSnap k; LSdRelease k; LSdJoin k; LSdReturn k]
     ++ map (fun j => LSdCancel k j) js) ks.
 
 Definition is_some {A} (o : option A) : bool := match o with Some _ => true | None => false end.
@@ -293,7 +299,7 @@ Definition sum {A} (f : A -> nat) (l : list A) : nat := fold_right (fun x a => f
 Definition phi (st : state) : nat := length (reg st) + sum pre_append (jobs st).
 Definition rank_sd (ph : nat) (s : sd) : nat :=
   match dpc s with
-  | DSet => 5 + ph | DAcquire => 4 + ph | DSnap => 4 + ph
-  | DCancel l => 2 + length l | DJoin l => 2 + length l | DDone => 0
+  | DSet => 6 + ph | DAcquire => 5 + ph | DSnap => 4 + ph
+  | DCancel l => 2 + length l | DUnlock l => 3 + length l | DJoin l => 2 + length l | DDone => 0
   end.
 Definition rank (st : state) : nat := sum rank_job (jobs st) + sum (rank_sd (phi st)) (sds st).
